@@ -444,7 +444,9 @@ impl<Hd: SizedPayload, El: SizedPayload> TSt<Hd, El> {
             return;
         }
         let len = thin_len(c);
-        match pick(b, 4) {
+        // zero-sized elements are refused by the iterator / slice constructors (C06); from_header_and_vec takes them
+        let variant = if El::ZST { 2 + 2 * (pick(b, 4) & 1) } else { pick(b, 4) };
+        match variant {
             0 => {
                 let hv = self.fresh();
                 let vals: Vec<u64> = (0..len).map(|_| self.fresh()).collect();
@@ -461,6 +463,11 @@ impl<Hd: SizedPayload, El: SizedPayload> TSt<Hd, El> {
             2 => {
                 let (a, _e) = self.build_fat(len, len, true);
                 self.adopt(TH::Fat(a), "Arc::from_header_and_vec(HeaderWithLength)");
+            }
+            4 => {
+                let (a, _e) = self.build_fat(len, len, true);
+                let t = lib!(Arc::into_thin(a));
+                self.adopt(TH::Thin(t), "Arc::into_thin(from_header_and_vec)");
             }
             _ => {
                 let (a, _e) = self.build_fat(len, len, false);
@@ -672,7 +679,7 @@ impl<Hd: SizedPayload, El: SizedPayload> TSt<Hd, El> {
             3 => len + 1000,
             _ => usize::MAX,
         };
-        let (a, _e) = self.build_fat(len, rec, b & 1 == 1);
+        let (a, _e) = self.build_fat(len, rec, b & 1 == 1 || El::ZST);
         self.adopt(TH::Fat(a), "Arc::from_header_and_iter/vec(HeaderWithLength{wrong length})");
         let i = self.slots.len() - 1;
         if rec != len {
@@ -714,9 +721,13 @@ impl<Hd: SizedPayload, El: SizedPayload> TSt<Hd, El> {
                 }
                 if granted {
                     let m = &mut self.allocs[ai];
-                    m.hdr.1 = nv;
-                    for (e, v) in m.els.iter_mut().zip(nel.iter()) {
-                        e.1 = *v;
+                    if !Hd::ZST {
+                        m.hdr.1 = nv;
+                    }
+                    if !El::ZST {
+                        for (e, v) in m.els.iter_mut().zip(nel.iter()) {
+                            e.1 = *v;
+                        }
                     }
                     if self.facts.uniq_declined.contains(&ai) {
                         self.facts.uniq_decline_then_success = true;
@@ -733,7 +744,8 @@ impl<Hd: SizedPayload, El: SizedPayload> TSt<Hd, El> {
                 let vals: Vec<u64> = (0..len).map(|_| self.fresh()).collect();
                 let (fresh, _e): (Prot<Hd, El>, _) = track(|| {
                     let items: Vec<El> = vals.iter().map(|v| El::make(*v)).collect();
-                    Arc::protected_from_thin(ThinArc::from_header_and_iter(Hd::make(hv), items.into_iter()))
+                    let n = items.len();
+                    Arc::protected_from_thin(Arc::into_thin(Arc::from_header_and_vec(HeaderWithLength::new(Hd::make(hv), n), items)))
                 });
                 // register the fresh allocation (owned by `fresh` for the moment)
                 self.adopt(TH::Prot(fresh), "fresh replacement for with_arc_mut");
